@@ -63,6 +63,12 @@ RELS = [(0, 1, "Omega == kappa_X(PEDKR)"), (2, 3, "kappa == kappa_X(ED,KR)"), (4
 
 
 def cases(rng, tier):
+    # the same query several times in a row on one object
+    for c in gen.repeated_call_cases(rng, 8 if tier == "quick" else 60, ['omega', 'kappaX s000045,s000044 s00004b,s000052'], gen.CLAMP_BAND[:8] if True else ()):
+        yield c
+    # objects handed back by moves / shuffles, and copy / deepcopy / pickle duplicates of objects with built-up state
+    for l in core.childq_cases(rng, 60 if tier == "quick" else 400, ['omega', 'kappaX s000045,s000044 s00004b,s000052']):
+        yield Case([l], {"kind": "object-from-move-or-copy"})
     # the property's own queries AFTER other public calls on the same object (same answers as on a fresh one)
     for c in gen.after_calls_cases(rng, 16 if tier == "quick" else 120, ['omega', 'kappaX s000050,s000045,s000044,s00004b,s000052 -', 'kappaX s000045,s000044 s00004b,s000052', 'kappa', 'omegaseq']):
         yield c
@@ -84,7 +90,12 @@ def cases(rng, tier):
 
 
 def judge(case, reals, gens, specs):
-    if case.tags.get("kind") in ("after-other-calls", "after-calls-on-another-object"):
+    if case.block and case.block[0].startswith("childq "):
+        if reals[0][0] != "childq":
+            return [("violation", 0, "%s -> %s" % (case.block[0], str(reals[0])[:300]))]
+        ok_c, why = core.judge_childq(reals[0])
+        return [] if ok_c else [("violation", 0, why)]
+    if case.tags.get("kind") in ("after-other-calls", "after-calls-on-another-object", "repeated-calls"):
         from ..runner import default_judge
         return default_judge(None, case, reals, gens, specs)
     out = []
